@@ -32,6 +32,37 @@ def save_case(job):
             src = arg
             doc = Document(src)
             label = os.path.basename(src)
+        elif kind == "edit":
+            # a loaded document edited through the API: control cells (pop-up menu, stepper), a style, a merge and a new table on its
+            # first tables (objects created next to - or appended to - what Numbers wrote); an edit the library refuses is skipped
+            from numbers_parser import MergedCell
+            src = arg
+            doc = Document(src)
+            label = "edit:" + os.path.basename(src)
+            st = None
+            ntab = 0
+            for sh in doc.sheets:
+                for tb in sh.tables:
+                    if ntab >= 12 or tb.num_rows * tb.num_cols > 20000:
+                        continue
+                    ntab += 1
+                    r0, c0 = tb.num_header_rows, tb.num_header_cols
+                    free = [(r, c) for r in range(r0, min(tb.num_rows, r0 + 4)) for c in range(c0, min(tb.num_cols, c0 + 4))
+                            if not isinstance(tb.cell(r, c), MergedCell) and not tb.cell(r, c).is_merged]
+                    edits = [lambda r, c: (tb.write(r, c, "item 1"), tb.set_cell_formatting(r, c, "popup", popup_values=["item 1", "item 2"], allow_none=True)),
+                             lambda r, c: (tb.write(r, c, 3.0), tb.set_cell_formatting(r, c, "stepper", minimum=0, maximum=10, increment=1)),
+                             lambda r, c: tb.write(r, c, "styled", style=st)]
+                    for (r, c), ed in zip(free, edits):
+                        try:
+                            if st is None:
+                                st = doc.add_style(bold=True, text_inset=6.0)
+                            ed(r, c)
+                        except Exception:  # noqa: BLE001
+                            pass
+            try:
+                doc.sheets[0].add_table("Added by C07", num_rows=3, num_cols=3)
+            except Exception:  # noqa: BLE001
+                pass
         elif kind == "gen":
             src = fixtures.TEMPLATE
             doc = gendocs.build(arg[0], arg[1])
@@ -153,6 +184,10 @@ def run(ctx):
     k = 0
     for p in fx:
         jobs.append((k, "resave", p, ctx.scratch))
+        k += 1
+    must = [p for p in fixtures.readable_fixtures(ctx.workers) if os.path.basename(p) in ("issue-9.numbers", "test-1.numbers")]
+    for p in (fx[::2] if q else fx[:-1]) + [m for m in must if m not in fx]:
+        jobs.append((k, "edit", p, ctx.scratch))
         k += 1
     kinds = [x for x in gendocs.KINDS if x != "large"] + (["large"] if not q else [])
     for i, kd in enumerate(kinds * (1 if q else 3)):
